@@ -194,6 +194,12 @@ def main():
     except EYAMLCommandException as ex:
         log.critical(ex, 2)
 
+    if not discovered_nodes:
+        # An empty document holds no node for any query to match
+        log.critical(
+            "Required YAML Path does not match any nodes, '{}'."
+            .format(yaml_path), 1)
+
     try:
         for node in discovered_nodes:
             if isinstance(node, (dict, list, CommentedSet)):
